@@ -66,6 +66,33 @@ def run(ctx):
                                {"k": "data", "mn": "DW", "items": [{"t": "e", "e": {"o": "id", "nm": "fin"}}]}, movl(w, 0, "fin"), brs("JMP", "fin"), {"k": "label", "nm": "end2"}]
                         R.add(st)
                         npat += 1
+    # (a'') `$` inside EQU bodies (the address of the EQU statement), with and without names defined further down, used later
+    nequ = 0
+    for bits in (16, 32):
+        w = 16 if bits == 16 else 32
+        for org in (0, 0x7c00):
+            for fwd in (0, 1):
+                for gap in (0, 2, 7):
+                    st = [{"k": "org", "v": org}] + ([{"k": "bits", "v": 32}] if bits == 32 else []) + [movl(w, 0, "top") if False else {"k": "ins", "mn": "NOP", "ops": []}]
+                    st += [{"k": "label", "nm": "top"}]
+                    body = {"o": "+", "a": {"o": "$"}, "b": {"o": "id", "nm": "PAD"}}
+                    pad = {"k": "equ", "nm": "PAD", "e": {"o": "n", "v": 4}}
+                    if not fwd:
+                        st.append(pad)
+                    st.append({"k": "equ", "nm": "HERE", "e": body})
+                    st.append({"k": "equ", "nm": "HERE0", "e": {"o": "$"}})
+                    st.append({"k": "data", "mn": "DW", "items": [{"t": "e", "e": {"o": "n", "v": 0x1111, "sty": "h"}}]})
+                    if gap:
+                        st.append({"k": "resb", "e": {"o": "n", "v": gap}})
+                    if fwd:
+                        st.append(pad)
+                    st += [{"k": "data", "mn": "DW", "items": [{"t": "e", "e": {"o": "id", "nm": "HERE"}}]},
+                           {"k": "data", "mn": "DD", "items": [{"t": "e", "e": {"o": "id", "nm": "HERE0"}}]},
+                           movl(w, 3, "HERE"), movl(w, 6, "HERE0"),
+                           {"k": "resb", "e": {"o": "-", "a": {"o": "+", "a": {"o": "id", "nm": "HERE0"}, "b": {"o": "n", "v": 64}}, "b": {"o": "$"}}},
+                           {"k": "label", "nm": "after"}, {"k": "data", "mn": "DW", "items": [{"t": "e", "e": {"o": "id", "nm": "after"}}]}]
+                    R.add(st)
+                    nequ += 1
     # (b) every statement kind followed by a label whose value is embedded
     cells = []
     for p in PARTS:
@@ -101,7 +128,7 @@ def run(ctx):
         "states": mcst["distinct"], "transitions": mcst["generated"],
         "model_checking": "MC_Asm: all programs of length <= %d over a 15-statement alphabet (labels, JMP/JE/JNZ/CALL to labels, DW/MOV of labels, NOP, RESB 1/126, ALIGNB 4, ORG, BITS 32); invariants Inv_C03 Inv_C04 Inv_C05 Inv_C17 hold" % (4 if quick else 5),
         "traces_validated_against_impl": len(R.cases), "trace_events": ver["events"],
-        "random_programs": nprog, "forward_reference_patterns": npat, "sweep_cells": len(cells) * 2,
+        "random_programs": nprog, "forward_reference_patterns": npat, "dollar_in_equ_programs": nequ, "sweep_cells": len(cells) * 2,
         "programs_without_diagnostic": clean, "programs_fully_accepted_by_reference": clean - len([i for i in rejected if not is_diagnosed(R.end(i))]),
         "evaluations": len(R.cases), "distinct_nontrivial": clean,
         "rule": "(a) seeded random programs from spec/Gen_Prog.tla (TLC -simulate): instructions of every size class, DB/DW/DD, RESB, ALIGNB, EQU, labels referenced before and after definition, ORG in {none,0,0x100,0x7c00,0xc200}, both modes; "
